@@ -553,7 +553,7 @@ func cmdDriveStorage(args []string) error {
 	defer out.close()
 	rnd := rand.New(rand.NewSource(seed()*19 + 6))
 	idNames := []string{"min", "max", "zero", "neg", "pos"}
-	rulesSeen := 0
+	rulesSeen, concurrentRetr := 0, 0
 	for out.n < 2*n {
 		nl := 1 + rnd.Intn(3)
 		perm := rnd.Perm(len(idNames))
@@ -633,9 +633,44 @@ func cmdDriveStorage(args []string) error {
 			cleanup2()
 			cleanup()
 			out.write(ev)
+			if store == "file" && len(sc) > 0 {
+				// the same retrievals from 6 goroutines on a cold storage: an answer that differs from the sequential one
+				// replaces it, and the event is logged again for the specification to judge
+				st3, cleanup3, err := makeStorage(rls, true, m["dir"])
+				if err != nil {
+					return err
+				}
+				evc := ev
+				evc.Store = "file-concurrent"
+				evc.Retr = append([]stRetrEv{}, ev.Retr...)
+				var mu sync.Mutex
+				differs := false
+				concurrently(len(sc), 6, seed()+int64(out.n), func(_, i int) {
+					g := sc[i]
+					var r rules.Rule
+					var rerr error
+					pv := safeCall(func() { r, rerr = st3.RetrieveRule(g.idx) })
+					e := stRetrEv{Ok: pv == "" && rerr == nil && !isNilRule(r)}
+					if e.Ok {
+						e.Kind = kindOfRule(r, nil)
+						e.Same = r.Text() == g.text && r.GetFilterListID() == g.id
+					}
+					if e != ev.Retr[i] {
+						mu.Lock()
+						evc.Retr[i], differs = e, true
+						mu.Unlock()
+					}
+				})
+				cleanup3()
+				concurrentRetr += 6 * len(sc)
+				if differs {
+					evc.Note = "concurrent retrieval from 6 goroutines differs from the sequential one"
+					out.write(evc)
+				}
+			}
 		}
 	}
-	summary(map[string]any{"events": out.n, "rules_scanned": rulesSeen})
+	summary(map[string]any{"events": out.n, "rules_scanned": rulesSeen, "concurrent_retrievals": concurrentRetr})
 	return nil
 }
 
